@@ -28,6 +28,7 @@ type pdInput struct {
 	Rootsig string `json:"rootsig"`
 	Var     pdVar  `json:"var"`
 	Deflate bool   `json:"deflate"`
+	Before  string `json:"before"`
 }
 type pdCfg struct {
 	IssuerCfg bool `json:"issuerCfg"`
@@ -137,18 +138,34 @@ func (Predecode) Run(c *orch.Case) *orch.Outcome {
 			}
 		}()
 		if in.Kind == "sso" {
+			var p *types.UnverifiedBaseResponse
+			var perr error
+			if in.Before != "none" {
+				Poison(in.Before) // what the library saw last; then the pre-decode, then validation
+				p, perr = saml2.DecodeUnverifiedBaseResponse(enc)
+			}
 			r, err := sp.ValidateEncodedResponse(enc)
 			o.Res, o.Err = classify(r == nil, err)
-			p, perr := saml2.DecodeUnverifiedBaseResponse(enc)
+			if in.Before == "none" {
+				p, perr = saml2.DecodeUnverifiedBaseResponse(enc)
+			}
 			o.Pre.OK = perr == nil && p != nil
 			if o.Res == "accept" && o.Pre.OK {
 				o.Pre.Agree = p.ID == r.ID && p.InResponseTo == r.InResponseTo && p.Destination == r.Destination && p.Version == r.Version && iss(p.Issuer) == iss(r.Issuer)
 				o.Got = fmt.Sprintf("validated %q %q %q %q %q / pre-decoded %q %q %q %q %q", r.ID, r.InResponseTo, r.Destination, r.Version, iss(r.Issuer), p.ID, p.InResponseTo, p.Destination, p.Version, iss(p.Issuer))
 			}
 		} else {
+			var p *types.LogoutResponse
+			var perr error
+			if in.Before != "none" {
+				Poison(in.Before)
+				p, perr = saml2.DecodeUnverifiedLogoutResponse(enc)
+			}
 			r, err := sp.ValidateEncodedLogoutResponsePOST(enc)
 			o.Res, o.Err = classify(r == nil, err)
-			p, perr := saml2.DecodeUnverifiedLogoutResponse(enc)
+			if in.Before == "none" {
+				p, perr = saml2.DecodeUnverifiedLogoutResponse(enc)
+			}
 			o.Pre.OK = perr == nil && p != nil
 			if o.Res == "accept" && o.Pre.OK {
 				o.Pre.Agree = p.ID == r.ID && p.InResponseTo == r.InResponseTo && p.Destination == r.Destination && p.Version == r.Version && iss(p.Issuer) == iss(r.Issuer)
